@@ -48,7 +48,7 @@ def boundary_sweep(run, shapes):
     runs = 0
     for shp in shapes:
         m = shp[3]
-        for k_edit in (3.0, 0.5, None):
+        for k_edit in (3.0, 0.5, None, 2):
             thr = (k_edit * math.sqrt(2 * m) + m) if k_edit else 10.0
             for fac in (0.25, 1 - 1e-6, 1 + 1e-6, 4.0):
                 runs += 1
